@@ -127,9 +127,16 @@ fn remove_unused_sub_elements(module: &mut Module) {
         .retain(|item| used_compu_tabs.contains(&item.name));
 
     // remove all unused UNITs
-    for unit in &module.unit {
-        if let Some(ref_unit) = &unit.ref_unit {
-            used_units.insert(ref_unit.unit.clone());
+    // a UNIT can refer to another UNIT, but only references held by UNITs that are used themselves count
+    let mut found_new = true;
+    while found_new {
+        found_new = false;
+        for unit in &module.unit {
+            if used_units.contains(&unit.name) {
+                if let Some(ref_unit) = &unit.ref_unit {
+                    found_new |= used_units.insert(ref_unit.unit.clone());
+                }
+            }
         }
     }
 
